@@ -240,6 +240,12 @@ fn render_fn(ctx: &mut Ctx, unit: &Unit, fs: &FnSpec, found: &FoundFn, in_trait_
             FnArg::Typed(pt) => {
                 pt.attrs.clear();
                 n.visit_type_mut(&mut pt.ty);
+                if let Pat::Wild(_) = &*pt.pat {
+                    // R-WILDPARAM: Verus wants a plain identifier
+                    let id = Ident::new(&format!("_vx_arg{}", inputs.len()), Span::call_site());
+                    *pt.pat = parse_quote!(#id);
+                    n.bump("R-WILDPARAM");
+                }
                 let mut name = ts(&pt.pat);
                 if let Pat::Ident(pi) = &mut *pt.pat {
                     if pi.mutability.is_some() && pi.by_ref.is_none() {
